@@ -59,6 +59,7 @@ let hstep_ s = match tag s with
   | ("set", [p; c]) -> M.HSet (project_ p, config_ c)
   | ("delete", [f]) -> M.HDelete (fname_ f)
   | ("dropcache", []) -> M.HDropCache
+  | ("corrupt", [f]) -> M.HCorrupt (fname_ f)
   | ("run", [w; flag; fault]) -> M.HRun (sched_ w, bool_ flag, opt_ nat_ fault)
   | _ -> failwith "hstep"
 let of_obs (o : M.hobs) =
@@ -75,6 +76,10 @@ let () =
     match list s with
     | [w; p; c; f] -> of_opt of_nat (M.c17_fault_index (sched_ w) (project_ p) (config_ c) (opt_ fname_ f))
     | _ -> failwith "c17-index: bad case");
+  Registry.register "kf" (fun s ->
+    match list s with
+    | [t; m] -> of_bool (M.c17_kf_trunc (bool_ t) (bool_ m))
+    | _ -> failwith "c17-kf: bad case");
   Registry.register "oracle" (fun s ->
     match list s with
     | [b; rf; v; cf; rr; cr; fr] ->
